@@ -44,6 +44,9 @@ def get_local_timezone() -> Timezone | FixedTimezone:
 def set_local_timezone(mock: str | Timezone | None = None) -> None:
     global _mock_local_timezone
 
+    if isinstance(mock, str):
+        mock = Timezone(mock)
+
     _mock_local_timezone = mock
 
 
